@@ -403,6 +403,9 @@ where
             let max = T::max_value();
             let l = T::try_from(l).unwrap_or(min);
             let r = T::try_from(r).unwrap_or(max);
+            if l > r {
+                return Err(Error::msg("empty range in the random config"));
+            }
             u.int_in_range(l..=r)?
         }
     })
